@@ -4,7 +4,7 @@ CONSTANTS
   MB <- MCB
   WSize = 3
   MaxT = 7
-  RndLen = 8
+  RndLen = 0
   LeakLabels = TRUE
 INVARIANT OnlyAcquiredLabels
 CHECK_DEADLOCK FALSE
